@@ -38,3 +38,12 @@ pub fn hex(xs: &[u8]) -> String {
     }
     s
 }
+
+/// HX_C28_PLANT=<name>[,<name>..] or "all": deliberately corrupt one recorded implementation output (sanity test
+/// of the check itself; see notes/CONTRIB.md). Unset in every normal run.
+pub fn plant(name: &str) -> bool {
+    match std::env::var("HX_C28_PLANT") {
+        Ok(v) => v == "all" || v.split(',').any(|x| x == name),
+        Err(_) => false,
+    }
+}
